@@ -11,7 +11,7 @@ PROOF_MODULE = ["OdeVerif.Proofs.C07", "OdeVerif.Proofs.RefineConfig"]
 GENERATED = ['PyConfig', 'Constants']
 THEOREMS = ["OdeVerif.C07.probe_history_independent", "OdeVerif.C07.run_pointwise", "OdeVerif.C07.unspecified_takes_default",
             "OdeVerif.C07.defaults_documented", "OdeVerif.C07.unknown_option_rejected", "OdeVerif.C07.prefix_history_dependent",
-            "OdeVerif.Refine.readGlobalConfig_refines"]
+            "OdeVerif.Refine.readGlobalConfig_refines", "OdeVerif.Refine.analysisPrologue_refines", "OdeVerif.Refine.analysisPrologue_ignores_store"]
 LEVEL = "proof"
 
 OPTION_MENU = [("input_time_symbol", ["s", "time", "T"]), ("output_timestep_symbol", ["dt", "h_step"]), ("differential_order_symbol", ["_D", "__prime"]),
@@ -63,8 +63,10 @@ def gen_call(rng, kind=None):
             ind["options"] = opts
         return {"indict": ind, "flags": {"disable_stiffness_check": True}, "kind": "function"}
     g = systems.gen_system(rng, shape=rng.choice(["isolated", "offset_single", "mixed_nonlinear", "numeric_dep_analytic", "isolated"]),
-                           with_params=rng.choice(["none", "all"]))
+                           with_params=rng.choice(["none", "all", "partial", "empty"]))
     ind = g["indict"]
+    if "parameters" not in ind and rng.random() < 0.5:
+        ind["parameters"] = {}          # a parameters block that is present but empty is valid input
     flags = {"disable_stiffness_check": True}
     if kind == "options":
         opts = {}
